@@ -223,6 +223,46 @@ Theorem C11_rekey_first_rename_repaired_witness :
 Proof. exact rekey_first_rename_repaired_witness. Qed.
 Print Assumptions C11_rekey_first_rename_repaired_witness.
 
+(* FAILING STAT CALLS.  os.path.isfile / isdir / exists / lexists read ANY error of the stat as "False": a failing
+   stat silently changes a decision.  The model carries every stat of the lifecycle operations (Job.init,
+   the re-key, move, clone incl. the three swallowed stats of shutil.copy2 and copystat's stat of the source
+   directory, rmtree's lstat, clear's isfile / isdir), so the fault_safe theorems above quantify over them too.
+   Two places where the swallowed error breaks the property (known findings 5 and 6): *)
+
+(* REFUTED "clear() raises or is complete": the stat of a data file fails once (isfile -> False, isdir ->
+   False): the file is skipped, clear() returns normally, the data is still there; without the fault
+   the same run is complete *)
+Theorem C11_clear_stat_fault_silent_refuted :
+  post_ok cw_repr clr_op cw_f0 (fst (run (op_prog cw_repr true clr_op) cw_f0)) = true /\
+  match find_occ clr_sig 0 (map fst (trace (op_prog cw_repr true clr_op) cw_f0)) 0 with
+  | None => False
+  | Some k =>
+      let '(g, out) := run_fault (single k EIO) 0 (op_prog cw_repr true clr_op) cw_f0 in
+      out = inl tt /\ get g (cw_a ++ [cw_id; cw_data]) = Some (File cw_bytes) /\ post_ok cw_repr clr_op cw_f0 g = false
+  end.
+Proof. exact clear_stat_fault_silent_witness. Qed.
+Print Assumptions C11_clear_stat_fault_silent_refuted.
+
+(* REFUTED "an existing clone destination is never touched" under a DOUBLE fault that includes the lexists()
+   of the destination: lexists fails (read as "not there") and the mkdir of the destination fails with EIO:
+   the clean-up deletes the destination job that existed before.  Either fault alone: exception and pre-state
+   (this is the exception already stated in C11_fault_safe_clone_partial) *)
+Theorem C11_clone_lexists_double_fault_refuted :
+  match find_occ cx_stat 0 (map fst (trace (op_prog cw_repr true cw_op) cx_f0)) 0,
+        find_occ cx_mkdir 0 (map fst (trace (op_prog cw_repr true cw_op) cx_f0)) 0 with
+  | Some k1, Some k2 =>
+      let both := fun i => if Nat.eqb i k1 then Some EIO else if Nat.eqb i k2 then Some EIO else None in
+      (let '(g, out) := run_fault both 0 (op_prog cw_repr true cw_op) cx_f0 in
+       (exists e, out = inr e) /\ exists_ g (cw_b ++ [cw_id]) = false)
+      /\ (let '(g, out) := run_fault (single k1 EIO) 0 (op_prog cw_repr true cw_op) cx_f0 in
+          (exists e, out = inr e) /\ forallb (fun e => node_same (get cx_f0 (fst e)) (get g (fst e))) (cx_f0 ++ g) = true)
+      /\ (let '(g, out) := run_fault (single k2 EIO) 0 (op_prog cw_repr true cw_op) cx_f0 in
+          (exists e, out = inr e) /\ forallb (fun e => node_same (get cx_f0 (fst e)) (get g (fst e))) (cx_f0 ++ g) = true)
+  | _, _ => False
+  end.
+Proof. exact clone_lexists_double_fault_witness. Qed.
+Print Assumptions C11_clone_lexists_double_fault_refuted.
+
 (* licence for the correspondence step: when a crash_safe theorem covers the case's operation and the
    implementation's observations agree with the model (no mismatch), every crash state the implementation
    was seen in is observationally equal to a model crash state that satisfies CInv *)
